@@ -25,3 +25,5 @@ CONSTANTS
   ExcludeKept = FALSE
   UserRoleReverted = FALSE
   ReloadOrsUserRole = FALSE
+  MaxFlight = 0
+  RevertBySnapshot = FALSE
